@@ -89,7 +89,9 @@ def atomic_grid(degree, rmin=0.0, laguerre=False, rotate=0):
         if rotate == "pruned":
             # mixed per-shell degrees (what the pruned constructors produce): the harmonic basis is truncated per shell
             n = rg.size
-            degs = [degree + (4 if n // 3 <= i < 2 * n // 3 else (2 if i >= 2 * n // 3 else 0)) for i in range(n)]
+            # inner third much coarser than the rest: degree 3 inside, degree + 4 in the middle, degree outside, so that
+            # some shells have a degree below half of the largest one (seeded change C16-J)
+            degs = [3 if i < n // 3 else (degree + 4 if i < 2 * n // 3 else degree) for i in range(n)]
             return AtomGrid(rg, degrees=degs, center=CENTRE, rotate=5), tf
         return AtomGrid(rg, degrees=[degree], center=CENTRE, rotate=rotate), tf
 
@@ -484,6 +486,58 @@ def _robust2_case(arg):
     return res.as_dict()
 
 
+def _robust3_case(arg):
+    """Robust solver on a two-atom molecular grid with a residual that carries net charge (core models plus smooth Gaussians)
+    and with options forwarded to the boundary-value solver (removal of large radii, origin node): the result is the
+    analytic potential of all Gaussians (added after seeded change C16-I: one far-field boundary value for every atom)."""
+    variant, seed = arg
+    from grid.atomgrid import AtomGrid
+    from grid.becke import BeckeWeights
+    from grid.coulomb import load_atomic_gaussian_params
+    from grid.molgrid import MolGrid
+    from grid.onedgrid import GaussLegendre
+    from grid.rtransform import BeckeRTransform, InverseRTransform
+    from grid.robust_poisson import solve_poisson_robust
+
+    res = WorkerResult(section="robust:charged-residual")
+    case = {"route": "robust3", "variant": variant}
+    kw = {"default": {}, "remove-10": {"remove_large_pts": 10.0}, "remove-10-origin-off": {"remove_large_pts": 10.0, "include_origin": False}}[variant]
+    atnums = np.array([1, 1])
+    coords = np.array([[0.0, 0.0, -0.7], [0.05, 0.0, 0.75]])
+    with warnings.catch_warnings():
+        warnings.simplefilter("ignore")
+        btf = BeckeRTransform(1e-5, 1.5)
+        rg = btf.transform_1d_grid(GaussLegendre(70))
+        mg = MolGrid(atnums, [AtomGrid(rg, degrees=[9], center=c, rotate=k * 5) for k, c in enumerate(coords)], BeckeWeights(order=3), store=True)
+        terms = []
+        for z, cen in zip(atnums, coords):
+            cs, al = load_atomic_gaussian_params(int(z))
+            terms += [(c, a, cen) for c, a in zip(cs, al)]
+        terms += [(0.7, 0.6, coords[0]), (0.4, 0.9, coords[1])]
+        rng = np.random.default_rng([seed, 163])
+        q = np.vstack([cen + rng.normal(size=(8, 3)) * 1.0 for cen in coords])
+        if "origin-off" in variant:
+            q = q[np.min(np.linalg.norm(q[:, None, :] - coords[None], axis=2), axis=1) > 1.0]
+        dens = sum(c * rho_gauss(mg.points, cen, a) for c, a, cen in terms)
+        ref = sum(c * v_gauss(q, cen, a) for c, a, cen in terms)
+        res.count(len(q))
+        try:
+            with np.errstate(all="ignore"):
+                np.random.seed(seed)
+                got = np.asarray(solve_poisson_robust(mg, dens, InverseRTransform(btf), atnums=atnums, atcoords=coords, **kw)(q), dtype=float)
+        except Exception as exc:
+            res.violation(f"robust3:raised:{type(exc).__name__}", f"{case}: {type(exc).__name__}: {exc}", case)
+            return res.as_dict()
+    res.nontrivial(n=len(q))
+    err = np.abs(got - ref)
+    if np.any(~np.isfinite(got)) or _gt(err.max(), 5 * TOL_BVP):
+        res.violation("robust3:charged-residual:differs-from-analytic", f"{case}: robust solver on a two-atom grid with a charged residual "
+                      f"deviates from the analytic potential by {np.nanmax(err):.2e} (allowed {5 * TOL_BVP:g})", case)
+    else:
+        res.maximum(f"robust3_err:{variant}", float(err.max()))
+    return res.as_dict()
+
+
 def _mol_case(arg):
     dist, seed = arg[:2]
     # the documented accuracy knob of the radial boundary-value solves; with the default 1e-6 the solver gives up
@@ -561,6 +615,8 @@ def run(ctx):
         jobs.append(("ivpv", (variant, ctx.seed)))
     jobs.append(("rob2", (True, 8.0, ctx.seed)))
     jobs.append(("rob2", (False, 8.0, ctx.seed)))
+    for variant in ("remove-10-origin-off",) + (("remove-10",) if ctx.thorough else ()):
+        jobs.append(("rob3", (variant, ctx.seed)))
     for mol in ("OO", "OCO", "CCC") + (("ClCl", "HOHO") if ctx.thorough else ()):
         jobs.append(("rob2", (mol == "OO", 8.0, ctx.seed, mol)))
     for disp in DISPLACEMENTS:
@@ -576,7 +632,7 @@ def run(ctx):
     jobs += [("mol", (10.0, ctx.seed, 1e-3)), ("mol", (4.0, ctx.seed, 1e-3))]
     if ctx.thorough:
         jobs += [("mol", (1.4, ctx.seed)), ("mol", (1.4, ctx.seed, 1e-3)), ("mol", (2.5, ctx.seed, 1e-3))]
-    jobs.sort(key=lambda j: {"chg": 2, "ivpv": 1, "mol": 0, "bvp": 1 if j[1][0] == 15 else 3, "lin": 1, "ivp": 2, "lap": 3, "rob": 4, "rob2": 2}[j[0]])
+    jobs.sort(key=lambda j: {"rob3": 1, "chg": 2, "ivpv": 1, "mol": 0, "bvp": 1 if j[1][0] == 15 else 3, "lin": 1, "ivp": 2, "lap": 3, "rob": 4, "rob2": 2}[j[0]])
     for res in lattice.pmap_unordered(_dispatch, jobs, ctx.workers):
         if len(ctx.samples) > 8:
             res["samples"] = []
@@ -589,7 +645,7 @@ def run(ctx):
 def _dispatch(job):
     kind, arg = job
     return {"bvp": _bvp_case, "lin": _linearity_case, "ivp": _ivp_case, "lap": _laplacian_case, "rob": _robust_case,
-            "mol": _mol_case, "rob2": _robust2_case, "ivpv": _ivp_variant_case, "chg": _charge_case}[kind](arg)
+            "mol": _mol_case, "rob2": _robust2_case, "ivpv": _ivp_variant_case, "chg": _charge_case, "rob3": _robust3_case}[kind](arg)
 
 
 def replay(ctx, case):
@@ -598,6 +654,8 @@ def replay(ctx, case):
         ctx.merge(_bvp_case((case["degree"], case["displacement"], case["alpha"], tuple(case["options"]), ctx.seed)))
     elif r == "linearity":
         ctx.merge(_linearity_case((case["degree"], ctx.seed)))
+    elif r == "robust3":
+        ctx.merge(_robust3_case((case["variant"], ctx.seed)))
     elif r == "charge":
         ctx.merge(_charge_case((case["kind"], ctx.seed)))
     elif r == "ivp-variant":
